@@ -489,7 +489,7 @@ func ruleC12b(c *Ctx) []*report.Result {
 	for _, e := range eventsOf(a.It, "poolput") {
 		puts++
 		d := e.Detail
-		okv := d["type"] == tPP && d["lent"] == "F" && d["override"] == "none" && d["wrappedErr"] == "nil" && d["mode"] == "UnsafeEscaped" && d["ctx"] == "none" && d["fmt.buf"] == "&"+d["self"]+"/buf"
+		okv := d["type"] == tPP && d["lent"] == "F" && d["override"] == "none" && d["mode"] == "UnsafeEscaped" && d["ctx"] == "none" && d["fmt.buf"] == "&"+d["self"]+"/buf"
 		if okv {
 			r.Ok("Put at " + c.P.Pos(e.Instr.Pos()) + " [" + cfgString(d) + "]")
 		} else {
@@ -512,7 +512,7 @@ func ruleC12b(c *Ctx) []*report.Result {
 				}
 				d := ppConfig(o.Heap, p.Obj)
 				fb := o.Heap.Get(p.Obj, "fmt.buf").Key()
-				if d["panicking"] == "cfalse" && d["erroring"] == "cfalse" && d["wrapErrs"] == "cfalse" && d["wrappedErr"] == "nil" && d["override"] == "none" && fb == "&"+p.Obj+"/buf" {
+				if d["panicking"] == "cfalse" && d["erroring"] == "cfalse" && d["override"] == "none" && fb == "&"+p.Obj+"/buf" {
 					r.Ok("newPrinter result [" + cfgString(d) + "]")
 				} else {
 					r.Fail("rfmt.newPrinter / result", c.P.Pos(np.Pos()), "a recycled printer starts with stale per-call state: "+cfgString(d)+" fmt.buf="+fb, nil, cfgString(d))
@@ -522,6 +522,34 @@ func ruleC12b(c *Ctx) []*report.Result {
 	}
 	if n == 0 {
 		r.Undecide("newPrinter has no summary")
+	}
+	// the %w capture slot (run A-wrap)
+	w := c.AWrap()
+	wputs := 0
+	for _, e := range eventsOf(w.It, "poolput") {
+		wputs++
+		if e.Detail["wrappedErr"] == "nil" {
+			r.Ok("Put at " + c.P.Pos(e.Instr.Pos()) + " with no captured error [wrapErrs=" + e.Detail["wrapErrs"] + "]")
+		} else {
+			r.Fail(shortFn(e.Fn.String())+" / sync.Pool.Put", c.P.Pos(e.Instr.Pos()), "a printer is recycled with a captured %w operand still in place (wrappedErr="+e.Detail["wrappedErr"]+"): a later HelperForErrorf on the recycled printer rejects its first %w", e.Chain, cfgString(e.Detail))
+		}
+	}
+	if wputs == 0 {
+		r.Undecide("no sync.Pool.Put event in run A-wrap")
+	}
+	if np != nil {
+		for _, s := range w.SummariesOf(np.String()) {
+			for _, o := range s.SortedOutcomes() {
+				if p, ok := o.Ret.(engine.Ptr); ok {
+					we, wd := o.Heap.Get(p.Obj, "wrapErrs").Key(), o.Heap.Get(p.Obj, "wrappedErr").Key()
+					if we == "cfalse" && wd == "nil" {
+						r.Ok("newPrinter result: capture disabled, slot empty")
+					} else {
+						r.Fail("rfmt.newPrinter / result", c.P.Pos(np.Pos()), "a recycled printer starts with %w capture state wrapErrs="+we+" wrappedErr="+wd+": Sprintf(\"%w\", err) then captures or rejects depending on the previous call", nil, "")
+					}
+				}
+			}
+		}
 	}
 	return []*report.Result{c.finish(r)}
 }
